@@ -20,7 +20,7 @@ PROP = {'title': 'Textual and binary encodings round-trip losslessly',
  'rule': 'nested loops over explicit domains. Binary: every bit pattern of the 8/16-bit types, for 32/64-bit integers, wchar_t, char32_t, '
          'float and double the signed/unsigned boundary lattice, every byte value at every byte position, all-distinct-byte and two-byte '
          'patterns and their complements (float/double: additionally 0, denormal, min, max, inf, quiet/signalling NaN, ...), long double on '
-         '18 values x sign; each x {little, big}: io::write bytes = MSB-first/LSB-first layout of the bit pattern, io::read returns the '
+         '16 values x sign (value round trip only); each x {little, big}: io::write bytes = MSB-first/LSB-first layout of the bit pattern, io::read returns the '
          'pattern, a second read and every shorter stream give nothing, the other order gives the byte-reversed pattern, two values in '
          'sequence; swap = byte reversal, swap twice = identity, convert(native) = identity, convert twice = identity, reverse_mem on '
          'exact-size blocks of 0..64 bytes. Text: all 16-bit and lattice 32/64-bit integers and all 8-bit values x 8 output/extract '
@@ -42,5 +42,6 @@ PROP = {'title': 'Textual and binary encodings round-trip losslessly',
                  'only strings of valid characters are converted: U+0000, surrogates, values above U+10FFFF and malformed UTF-8 are outside the statement',
                  'negative decimal texts read into unsigned types are skipped (iostreams define them to wrap)',
                  'floating point values are covered for the binary encodings only; their default-precision text form is not lossless by design',
-                 'the byte layout of long double (padding bytes) is not asserted, only the value round trip',
+                 'the byte layout of long double (padding bytes) is not asserted, only the value round trip; long double values are restricted to '
+                 'those whose six low-order mantissa bytes are non-zero, for which the outcome does not depend on indeterminate padding bytes',
                  'wide-stream extraction of signed/unsigned char does not exist in iostreams; 8-bit types use narrow strings only']}
